@@ -624,8 +624,10 @@ SQFS_API sqfs_s32 sqfs_istream_splice(sqfs_istream_t *in, sqfs_ostream_t *out,
  * the native encoding is converted back to UTF-8 when reading.
  *
  * The implementation returned by this is simple, non-recursive, reporting
- * directory contents as returned by the OS native API, i.e. not sorted,
- * and including the "." and ".." entries.
+ * directory contents as returned by the OS native API, including the "."
+ * and ".." entries. On Unix-like systems, the entries are reported sorted by
+ * name (byte wise, as strcmp does), so the order does not depend on the
+ * underlying file system; on other systems, the order is that of the OS.
  *
  * @param path A path to a directory on the file system.
  *
